@@ -11,7 +11,7 @@ def _replace():
 
 
 def run(ctx):
-    n = {"quick": 1000, "thorough": 30000}[ctx.tier]
+    n = {"quick": 800, "thorough": 16000}[ctx.tier]
 
     def stages(ctx, mult, suffix, off):
         ctx.stage("c20" + suffix, "lib/controller/federation", "federation", ["C20/zz_verif_c20_test.go"], "TestVerifC20$",
